@@ -33,15 +33,41 @@ def documented_codes():
 
 
 def producible_codes():
-    path = os.path.join(common.REPO, "src", "alpha", "error.rs")
-    text = open(path, encoding="utf-8").read()
+    """(codes some stage can put on a diagnostic, codes of variants nothing constructs).
+    The table is the match in Error::code; a variant counts as producible when it is constructed
+    somewhere outside error.rs (Error::X / Lint::X; lexical errors: Error::X in lexer.rs)."""
+    base = os.path.join(common.REPO, "src", "alpha")
+    text = open(os.path.join(base, "error.rs"), encoding="utf-8").read()
     m = re.search(r"pub fn code\(&self\) -> u16\s*\{(.*?)\n\t\}\n", text, re.S)
     if not m:
-        raise common.ToolError("cannot find Error::code in %s" % path)
-    codes = {int(x) for x in re.findall(r"=>\s*(\d+),", m.group(1))}
-    if len(codes) < 50:
-        raise common.ToolError("Error::code: only %d codes found, the scan is stale" % len(codes))
-    return codes
+        raise common.ToolError("cannot find Error::code in src/alpha/error.rs")
+    body = m.group(1)
+    table = {}
+    for name, code in re.findall(r"lexer::Error::(\w+)\s*=>\s*(\d+),", body):
+        table[("lexer", name)] = int(code)
+    for name, code in re.findall(r"(?<!lexer::)Error::(\w+)\s*\{[^}]*\}\s*=>\s*(\d+),", body):
+        if name != "Lexical":
+            table[("error", name)] = int(code)
+    if len(table) < 50 or len(set(table.values())) != len(re.findall(r"=>\s*(\d+),", body)):
+        raise common.ToolError("Error::code: %d variants for %d codes, the scan is stale" %
+                               (len(table), len(re.findall(r"=>\s*(\d+),", body))))
+    others = ""
+    lexer_text = ""
+    for dp, dn, fn in os.walk(base):
+        for f in fn:
+            if f.endswith(".rs") and f != "error.rs":
+                t = open(os.path.join(dp, f), encoding="utf-8").read()
+                others += t
+                if f == "lexer.rs":
+                    lexer_text = t
+    live, dead = set(), set()
+    for (kind, name), code in table.items():
+        if kind == "lexer":
+            used = re.search(r"\bError::%s\b" % name, lexer_text)
+        else:
+            used = re.search(r"\b(?:Error|Lint)::%s\b" % name, others)
+        (live if used else dead).add(code)
+    return live, dead
 
 
 def letter(code):
@@ -88,7 +114,7 @@ def run(rep, tier, seed, selftest):
     pid = os.getpid()
     # ---------------------------------------------------------------- 1. catalogue
     documented = documented_codes()
-    producible = producible_codes()
+    producible, dead = producible_codes()
     observed = set()
     for inp, evs, _ in pc.grouped_events(p["events"]):
         end, last = pc.end_of(evs)
@@ -118,9 +144,13 @@ def run(rep, tier, seed, selftest):
                        "observed_in_this_run": code in observed})
     log("[catalogue] %d codes producible (src/alpha/error.rs), %d documented (docs/errors.md), %d observed in the run; TLC: undocumented = %s" %
         (len(producible), len(documented), len(observed), [letter(c) for c in undocumented]))
-    stale = sorted(documented - producible)
+    stale = sorted(documented - producible - dead)
     if stale:
-        rep.note_drift("codes documented but never produced: %s" % [letter(c) for c in stale])
+        rep.note_drift("codes documented but not in Error::code: %s" % [letter(c) for c in stale])
+    if dead:
+        rep.note_drift("codes of variants no stage constructs (not required in the catalogue): %s%s" %
+                       ([letter(c) for c in sorted(dead)],
+                        "; undocumented among them: %s" % [letter(c) for c in sorted(dead - documented)] if dead - documented else ""))
     # ---------------------------------------------------------------- 2. locations and rendering
     prefix = os.path.join(common.WORK, "pipeline-c13-%d" % pid)
     files, nruns = pc.split_events(p["events"], prefix + "-loc", parts=max(12, meta["events"] // 80000), transform=diag_trace)
@@ -261,6 +291,7 @@ def run(rep, tier, seed, selftest):
         "rejection_signatures": {"%s %s" % k_: v for k_, v in sigs.items()},
         "notes": notes,
         "codes_producible": len(producible),
+        "codes_of_dead_variants": [letter(c) for c in sorted(dead)],
         "codes_documented": len(documented),
         "codes_observed": len(observed),
         "undocumented": [letter(c) for c in undocumented],
@@ -271,7 +302,8 @@ def run(rep, tier, seed, selftest):
         "selftests": self_results,
     }
     assumptions = [
-        "the set of producible codes is read off the match in Error::code (src/alpha/error.rs) and must contain every observed code",
+        "the set of producible codes is read off the match in Error::code (src/alpha/error.rs), restricted to variants that some file "
+        "of src/alpha other than error.rs constructs, and must contain every observed code",
         "line starts and character counts of the inputs are computed by the harness (lines end in \\n), not by the lexer under test",
         "`covers the offending text` is decided only for injected faults with a known place (lexical faults, E402 specials); "
         "elsewhere well-formedness of the location is checked",
